@@ -254,11 +254,16 @@ claim('C28',
       'TLA+ enumeration with exact quadratic oracle, lookup law and Jacobian index map + replay', '6/C28, 7')
 
 claim('C30',
-      'PARTIAL. spec/mech/CsSafe.tla: the sign/zero/axis/quadrant case table and the exact rational directional derivative of cs_safe.abs, norm (on '
-      'Pythagorean data) and arctan2 (all quadrants and half-axes) with laws; each TLC-exported point x direction is replayed with h = 1e-40: real '
-      'part equals NumPy exactly, imag/h equals the spec at 1e-12; for the jax smooth/KS helpers only exactly rational identities are replayed.',
-      'Integer points, one step size; either one-sided derivative accepted at the kink of abs; accuracy of tanh/exp smoothing out of scope.',
-      'TLA+ enumeration of points x directions with exact rational derivatives + complex-step replay', '6/C30, 7')
+      'PARTIAL. spec/mech/CsSafe.tla: the sign/zero/axis/quadrant case table and the exact rational directional derivative of cs_safe.abs (points '
+      'scaled down to 1e-300, zeros, negative directions: the ONE-SIDED derivative in the direction of the step at the kink), norm (Pythagorean '
+      'data, all-zero arrays / rows / columns, axis forms) and arctan2 (all quadrants and half-axes) with laws; each TLC-exported point x direction is '
+      'replayed with h = 1e-40: real part equals NumPy exactly, imag/h equals the spec at 1e-12.  The jax smooth/KS helpers: tanh and log-sum-exp '
+      'are uninterpreted functions of their argument (odd / symmetric, exact at 0 and beyond saturation); 44 identity families incl. mu/rho-'
+      'sensitive scale, shift and cross-function laws and the default arguments; value, jax.grad and complex-step derivative compared.',
+      'Integer points times powers of ten, one step size; accuracy of the tanh/exp smoothing itself (a numeric statement) out of scope; abs(-0.0) '
+      'returns -0.0 (== 0.0) is not judged.',
+      'TLA+ enumeration of points x directions with exact rational derivatives + complex-step replay; uninterpreted-function identities for '
+      'the smooth helpers', '6/C30, 7')
 
 
 claim('C11',
